@@ -109,3 +109,36 @@ def run(ctx):
         else:
             r.fail(rule, 'untrusted:stored', 'BadCertificateUntrusted is returned without storing the certificate in the rejected directory', loc=b.loc)
     r.assumptions += ['file-system and X.509 parsing semantics (std::path, openssl) are trusted']
+    time_window(ctx)
+
+
+def time_window(ctx, rule='time-window'):
+    """X509::is_time_valid answers Good only when both `now < not_before` and `now > not_after` were tested false on the full
+    timestamps: the operands of the two comparisons are the `now` argument itself and the not_before() / not_after() results
+    themselves (no date-only or otherwise truncated view)"""
+    import json
+    r, db = ctx.r, ctx.db
+    b = db.body('crypto::x509::X509::is_time_valid')
+    if b is None:
+        r.lost(rule, 'is_time_valid', 'not found'); return
+    F = ctx.facts(b)
+    goods = [(bi, si) for bi, blk in enumerate(b.blocks) if not blk['c'] for si, st in enumerate(blk['s'])
+             if st[0] == '=' and st[1] == [0, []] and 'StatusCode::Good' in json.dumps(st[2])]
+    if not goods:
+        r.lost(rule, 'Good', 'no Good verdict in is_time_valid'); return
+    NB = r'X509::not_before\(&\(\*self\(_1\)\)\)@Ok\.0'
+    NA = r'X509::not_after\(&\(\*self\(_1\)\)\)@Ok\.0'
+    NOW = r'\(\*now\(_2\)\)'
+    for i, (bi, si) in enumerate(goods):
+        lits = [fmt_lit(b, l) for l, e in F.literals_at(bi, si)]
+        lo = any(re.match(r'^PartialOrd::lt\(&%s, &%s\) == False$' % (NOW, NB), x) or re.match(r'^PartialOrd::(ge)\(&%s, &%s\) == True$' % (NOW, NB), x) or
+                 re.match(r'^PartialOrd::(gt)\(&%s, &%s\) == False$' % (NB, NOW), x) or re.match(r'^PartialOrd::(le)\(&%s, &%s\) == True$' % (NB, NOW), x) for x in lits)
+        hi = any(re.match(r'^PartialOrd::gt\(&%s, &%s\) == False$' % (NOW, NA), x) or re.match(r'^PartialOrd::(le)\(&%s, &%s\) == True$' % (NOW, NA), x) or
+                 re.match(r'^PartialOrd::(lt)\(&%s, &%s\) == False$' % (NA, NOW), x) or re.match(r'^PartialOrd::(ge)\(&%s, &%s\) == True$' % (NA, NOW), x) for x in lits)
+        if lo and hi:
+            r.ok(rule, 'Good#%d' % i, 'Good only when not_before <= now <= not_after, compared on the full timestamps', loc=b.loc)
+        else:
+            r.fail(rule, 'Good#%d' % i, 'is_time_valid answers Good without having compared the full `now` timestamp with %s: a certificate outside its validity period '
+                   '(by less than the granularity compared) is trusted' % ' and '.join(x for x, ok in (('not_before()', lo), ('not_after()', hi)) if not ok), loc=b.loc)
+    r.count('time_window_sites', len(goods))
+    r.floor(rule, 'time_window_sites', len(goods), 1)
